@@ -8,6 +8,7 @@
 
 mod cfg;
 mod core;
+mod gen;
 mod json;
 mod lib_build;
 mod monitors;
